@@ -1487,9 +1487,17 @@ class PolarsModel(data_algebra.data_model.DataModel):
             return row
 
         rows = [extract_rows(i) for i in range(ct.shape[0])]
-        res = pl.concat(
-            rows, how="vertical_relaxed"
-        )  # value columns may differ in type
+        # value columns may differ in type: numbers are stacked as their common type; anything else would be
+        # cast silently (dates to day counts, numbers and logicals to text) and is refused
+        for c in new_names:
+            stacked_types = set([r.schema[c] for r in rows]) - {pl.Null}
+            if (len(stacked_types) > 1) and (
+                not all([t.is_numeric() for t in stacked_types])
+            ):
+                raise ValueError(
+                    f"column {c} would stack values of incompatible types: {stacked_types}"
+                )
+        res = pl.concat(rows, how="vertical_relaxed")
         if (blocks_out.record_keys is not None) and (len(blocks_out.record_keys) > 0):
             res = res.sort(
                 blocks_out.record_keys + blocks_out.control_table_keys, nulls_last=True
